@@ -646,6 +646,86 @@ impl X25519 {
         out
     }
 
+    /// Montgomery ladder with an arbitrary (unclamped) 256-bit scalar: the u-coordinate of [k]P for a
+    /// point P with u-coordinate `u` on the curve or its twist, None for the point at infinity.
+    pub fn ladder_raw(&self, k: &[u64], u: &[u8]) -> Option<[u8; 32]> {
+        let f = &self.fp;
+        let x1 = f.to_mont(&f.reduce(&from_le(u, 4)));
+        let mut x2 = f.one.clone();
+        let mut z2 = vec![0u64; 4];
+        let mut x3 = x1.clone();
+        let mut z3 = f.one.clone();
+        let mut swap = false;
+        for t in (0..256).rev() {
+            let kt = bit(k, t);
+            swap ^= kt;
+            if swap {
+                std::mem::swap(&mut x2, &mut x3);
+                std::mem::swap(&mut z2, &mut z3);
+            }
+            swap = kt;
+            let a = f.add(&x2, &z2);
+            let aa = f.sqr(&a);
+            let b = f.sub(&x2, &z2);
+            let bb = f.sqr(&b);
+            let e_ = f.sub(&aa, &bb);
+            let c = f.add(&x3, &z3);
+            let d = f.sub(&x3, &z3);
+            let da = f.mul(&d, &a);
+            let cb = f.mul(&c, &b);
+            x3 = f.sqr(&f.add(&da, &cb));
+            z3 = f.mul(&x1, &f.sqr(&f.sub(&da, &cb)));
+            x2 = f.mul(&aa, &bb);
+            z2 = f.mul(&e_, &f.add(&aa, &f.mul(&self.a24, &e_)));
+        }
+        if swap {
+            std::mem::swap(&mut x2, &mut x3);
+            std::mem::swap(&mut z2, &mut z3);
+        }
+        if is_zero(&z2) {
+            return None;
+        }
+        let r = f.from_mont(&f.mul(&x2, &f.inv(&z2)));
+        let mut out = [0u8; 32];
+        out.copy_from_slice(&to_le(&r, 32));
+        Some(out)
+    }
+
+    /// A public key P with X25519(sk, P) == r, for a canonical u-coordinate `r` (< p, bit 255 clear)
+    /// of a point of prime order on the curve (order l) or on its twist (order l'): P = [k^-1 mod q]R
+    /// with k = clamp(sk). None when R has a torsion component (then no such P exists, because the
+    /// clamped scalar is a multiple of the cofactor) or r < 2. The result is verified with `x25519`.
+    pub fn dh_preimage(&self, sk: &[u8], r: &[u8; 32]) -> Option<[u8; 32]> {
+        let f = &self.fp;
+        let rl = from_le(r, 4);
+        if cmp(&rl, &f.n) != Ordering::Less || (rl[0] < 2 && rl[1..].iter().all(|&x| x == 0)) {
+            return None;
+        }
+        // curve or twist: is u^3 + 486662 u^2 + u a square?
+        let um = f.to_mont(&rl);
+        let u2 = f.sqr(&um);
+        let v2 = f.add(&f.add(&f.mul(&u2, &um), &f.mul(&f.small(486662), &u2)), &um);
+        let half = from_hex("3ffffffffffffffffffffffffffffffffffffffffffffffffffffffffffffff6", 4);
+        let on_curve = f.pow(&v2, &half) == f.one;
+        let q = if on_curve {
+            from_hex("1000000000000000000000000000000014def9dea2f79cd65812631a5cf5d3ed", 4)
+        } else {
+            from_hex("1fffffffffffffffffffffffffffffffd6420c42ba10c6534fdb39cb4614581d", 4)
+        };
+        if self.ladder_raw(&q, r).is_some() {
+            return None; // not in the prime-order subgroup
+        }
+        let fq = Mont::new(q);
+        let k = from_le(&Self::clamp(sk), 4);
+        let kinv = fq.from_mont(&fq.inv(&fq.to_mont(&fq.reduce(&k))));
+        let pk = self.ladder_raw(&kinv, r)?;
+        if self.x25519(sk, &pk) == *r && pk[31] & 0x80 == 0 {
+            Some(pk)
+        } else {
+            None
+        }
+    }
+
     pub fn base(&self, k: &[u8]) -> [u8; 32] {
         let mut u = [0u8; 32];
         u[0] = 9;
